@@ -107,7 +107,12 @@ def _known_not_none(p, node, text):
     return False
 
 
-@analysis("windows", ["C16.i", "C08.h", "C07.u", "C15.i", "C15.j", "C08.i", "C07.z", "C15.l"])
+rule("C08.l", "block-wise reduction (`ufunc.reduceat(values, starts)`): the last block runs to the END OF THE ARRAY, not to the end of the last "
+              "interval - the reduced array is first cut to the window the blocks cover (data after an asset's window must not enter)", floor=1,
+     props=["C08", "C02", "C13"])
+
+
+@analysis("windows", ["C16.i", "C08.h", "C07.u", "C15.i", "C15.j", "C08.i", "C07.z", "C15.l", "C08.l"])
 def run(ctx):
     p = ctx.p
     # ================================================================= C16.i / C08.h
@@ -321,3 +326,24 @@ def run(ctx):
                    ", ".join(["column %r" % c for c in extra] + ["`%s`" % au.short(x, 30) for x in lits[:2]])), node=d.node)
     if not sel_defs:
         ctx.ob("C15.j", pf, "selector of the fix window", None, "the selector of the pinned bounds is not a local with a visible definition")
+
+    # ================================================================= C08.l reduceat over an array that is longer than the blocks
+    n_r = 0
+    for fn in sorted(p.all_functions(), key=lambda f: f.qualname):
+        for st in au.walk_stmts(fn.body):
+            for x in au.walk_own(st):
+                if not (isinstance(x, ast.Call) and au.method_name(x) == "reduceat" and x.args):
+                    continue
+                n_r += 1
+                arr = ctx.resolve(fn, x.args[0], st)
+                while isinstance(arr, ast.Call) and au.method_name(arr) in ("asarray", "array", "astype", "ascontiguousarray") and (arr.args or isinstance(arr.func, ast.Attribute)):
+                    arr = ctx.resolve(fn, arr.args[0] if (arr.args and au.method_name(arr) != "astype") else arr.func.value, st)
+                cut = isinstance(arr, ast.Subscript) and not (isinstance(arr.slice, ast.Slice) and arr.slice.upper is None and arr.slice.lower is None)
+                if isinstance(arr, ast.Subscript) and isinstance(arr.slice, ast.Slice) and arr.slice.upper is None:
+                    cut = False         # x[a:] still runs to the end
+                ctx.ob("C08.l", fn, au.short(x, 80), cut,
+                       "%s is reduced block-wise from the given start positions; the last block is summed to the end of the array. The array is the "
+                       "series over the whole horizon, so the last interval of an asset that ends inside the horizon takes in every value after "
+                       "its window (daily contract ending on 3 Jan on a grid to 5 Jan: its last price is the sum of 72 hourly prices over 24) - "
+                       "prices outside the window and the length of the horizon change the result" % au.short(x.args[0], 40), node=x)
+    ctx.ob("C08.l", "package", "block-wise reductions", True, ok_detail="%d reduceat call(s), all over arrays cut to the window" % n_r)
